@@ -70,6 +70,44 @@ def headMutable (m : LFilter) (q : Path) : Bool :=
 theorem mutableVariables_vars (s : Store) :
     (mutableVariables s).vars = s.vars.filter (fun kv => headMutable s.mutable kv.1) := rfl
 
+/-! ### binding the argument width is invisible to the syntactic predicates -/
+
+theorem sowCols_bindW (w : Nat) : ∀ p : SProg, sowCols (bindW w p) = sowCols p
+  | .seq a b => by simp [bindW, sowCols, sowCols_bindW w a, sowCols_bindW w b]
+  | .param _ _ _ => rfl
+  | .skip => rfl | .bind _ => rfl | .ret _ => rfl | .var _ _ _ _ => rfl | .get _ _ => rfl
+  | .put _ _ _ _ => rfl | .sow _ _ _ => rfl | .perturb _ _ _ => rfl | .child _ _ _ => rfl | .call _ _ _ => rfl
+
+theorem otherCols_bindW (w : Nat) : ∀ p : SProg, otherCols (bindW w p) = otherCols p
+  | .seq a b => by simp [bindW, otherCols, otherCols_bindW w a, otherCols_bindW w b]
+  | .param _ _ _ => rfl
+  | .skip => rfl | .bind _ => rfl | .ret _ => rfl | .var _ _ _ _ => rfl | .get _ _ => rfl
+  | .put _ _ _ _ => rfl | .sow _ _ _ => rfl | .perturb _ _ _ => rfl | .child _ _ _ => rfl | .call _ _ _ => rfl
+
+theorem eraseSow_bindW (w : Nat) : ∀ p : SProg, eraseSow (bindW w p) = bindW w (eraseSow p)
+  | .seq a b => by simp [bindW, eraseSow, eraseSow_bindW w a, eraseSow_bindW w b]
+  | .param _ _ _ => rfl
+  | .skip => rfl | .bind _ => rfl | .ret _ => rfl | .var _ _ _ _ => rfl | .get _ _ => rfl
+  | .put _ _ _ _ => rfl | .sow _ _ _ => rfl | .perturb _ _ _ => rfl | .child _ _ _ => rfl | .call _ _ _ => rfl
+
+theorem declOnly_bindW (w : Nat) : ∀ p : SProg, declOnly (bindW w p) = declOnly p
+  | .seq a b => by simp [bindW, declOnly, declOnly_bindW w a, declOnly_bindW w b]
+  | .param _ _ _ => rfl
+  | .skip => rfl | .bind _ => rfl | .ret _ => rfl | .var _ _ _ _ => rfl | .get _ _ => rfl
+  | .put _ _ _ _ => rfl | .sow _ _ _ => rfl | .perturb _ _ _ => rfl | .child _ _ _ => rfl | .call _ _ _ => rfl
+
+theorem sowCols_bindArg (w : Option Nat) (p : SProg) : sowCols (bindArg w p) = sowCols p := by
+  cases w <;> simp [bindArg, sowCols_bindW]
+
+theorem otherCols_bindArg (w : Option Nat) (p : SProg) : otherCols (bindArg w p) = otherCols p := by
+  cases w <;> simp [bindArg, otherCols_bindW]
+
+theorem eraseSow_bindArg (w : Option Nat) (p : SProg) : eraseSow (bindArg w p) = bindArg w (eraseSow p) := by
+  cases w <;> simp [bindArg, eraseSow_bindW]
+
+theorem declOnly_bindArg (w : Option Nat) (p : SProg) : declOnly (bindArg w p) = declOnly p := by
+  cases w <;> simp [bindArg, declOnly_bindW]
+
 /-! ### the frame relation -/
 
 /-- every collection selected by `mutable` is owned by the scope (a fresh copy or created by it) -/
@@ -285,7 +323,7 @@ theorem eval_frame (cfg : Cfg) : ∀ (fuel : Nat) (p : SProg) (π : Path) (x : I
     | ret e => simp only [eval]; split <;> exact Frame.refl s
     | param n shape init =>
       simp only [eval]
-      have f1 := scopeParam_frame π n shape init l.res s
+      have f1 := scopeParam_frame π n (resolveDims shape) init l.res s
       split
       · rename_i heq; rw [heq] at f1; exact f1
       · rename_i heq; rw [heq] at f1; exact f1
@@ -300,12 +338,12 @@ theorem eval_frame (cfg : Cfg) : ∀ (fuel : Nat) (p : SProg) (π : Path) (x : I
         · rename_i heq; rw [heq] at f1
           split <;> exact f1
     | get col n => simp only [eval]; split <;> exact Frame.refl s
-    | put col n e =>
+    | put col rel n e =>
       simp only [eval]
       split
       · exact Frame.refl s
       · rename_i v _
-        have f1 := putVar_frame π col n (.tensor [] [v]) s
+        have f1 := putVar_frame (π ++ rel) col n (.tensor [] [v]) s
         split
         · rename_i heq; rw [heq] at f1; exact f1
         · rename_i heq; rw [heq] at f1; exact f1
@@ -332,7 +370,7 @@ theorem eval_frame (cfg : Cfg) : ∀ (fuel : Nat) (p : SProg) (π : Path) (x : I
       split
       · exact Frame.refl s
       · split <;> exact Frame.refl s
-    | call slot a =>
+    | call slot a w =>
       simp only [eval]
       split
       · exact Frame.refl s
@@ -340,7 +378,7 @@ theorem eval_frame (cfg : Cfg) : ∀ (fuel : Nat) (p : SProg) (π : Path) (x : I
         split
         · exact Frame.refl s
         · rename_i av _
-          have f1 := ih k.body (π ++ [k.name]) av {} s
+          have f1 := ih (bindArg w k.body) (π ++ [k.name]) av {} s
           split
           · rename_i heq; rw [heq] at f1; exact f1
           · rename_i lk s1 heq
@@ -379,6 +417,16 @@ structure StepRel (R : Path → Store → Store → Prop) : Prop where
 
 section
 variable {R : Path → Store → Store → Prop}
+
+theorem StepRel.descend (hR : StepRel R) : ∀ (π rel : Path) (s s' : Store), R (π ++ rel) s s' → R π s s' := by
+  intro π rel
+  induction rel generalizing π with
+  | nil => intro s s' h; simpa using h
+  | cons a rest ih =>
+    intro s s' h
+    apply hR.child π a
+    apply ih (π ++ [a])
+    simpa using h
 
 theorem scopeParam_rel (hR : StepRel R) (π : Path) (n : String) (shape : List Nat) (init : Int) (r : Res) (s : Store) :
     R π s (scopeParam π n shape init r s).2 := by
@@ -497,7 +545,7 @@ theorem eval_rel (hR : StepRel R) (cfg : Cfg) : ∀ (fuel : Nat) (p : SProg) (π
     | ret e => simp only [eval]; split <;> exact hR.refl π s
     | param n shape init =>
       simp only [eval]
-      have f1 := scopeParam_rel hR π n shape init l.res s
+      have f1 := scopeParam_rel hR π n (resolveDims shape) init l.res s
       split
       · rename_i heq; rw [heq] at f1; exact f1
       · rename_i heq; rw [heq] at f1; exact f1
@@ -512,12 +560,12 @@ theorem eval_rel (hR : StepRel R) (cfg : Cfg) : ∀ (fuel : Nat) (p : SProg) (π
         · rename_i heq; rw [heq] at f1
           split <;> exact f1
     | get col n => simp only [eval]; split <;> exact hR.refl π s
-    | put col n e =>
+    | put col rel n e =>
       simp only [eval]
       split
       · exact hR.refl π s
       · rename_i v _
-        have f1 := hR.put π col n (.tensor [] [v]) s
+        have f1 := hR.descend π rel _ _ (hR.put (π ++ rel) col n (.tensor [] [v]) s)
         split
         · rename_i heq; rw [heq] at f1; exact f1
         · rename_i heq; rw [heq] at f1; exact f1
@@ -544,7 +592,7 @@ theorem eval_rel (hR : StepRel R) (cfg : Cfg) : ∀ (fuel : Nat) (p : SProg) (π
       split
       · exact hR.refl π s
       · split <;> exact hR.refl π s
-    | call slot a =>
+    | call slot a w =>
       simp only [eval]
       split
       · exact hR.refl π s
@@ -552,7 +600,7 @@ theorem eval_rel (hR : StepRel R) (cfg : Cfg) : ∀ (fuel : Nat) (p : SProg) (π
         split
         · exact hR.refl π s
         · rename_i av _
-          have f1 := ih k.body (π ++ [k.name]) av {} s
+          have f1 := ih (bindArg w k.body) (π ++ [k.name]) av {} s
           split
           · rename_i heq; rw [heq] at f1; exact hR.child _ _ _ _ f1
           · rename_i lk s1 heq
@@ -741,7 +789,7 @@ theorem eval_res_mono (cfg : Cfg) : ∀ (fuel : Nat) (p : SProg) (π : Path) (x 
       simp only [eval] at h
       split at h <;>
         (simp only [Prod.mk.injEq, Except.ok.injEq] at h; rw [← h.1]; exact fun _ hx => hx)
-    | put col n e =>
+    | put col rel n e =>
       simp only [eval] at h
       split at h
       · simp at h
@@ -779,7 +827,7 @@ theorem eval_res_mono (cfg : Cfg) : ∀ (fuel : Nat) (p : SProg) (π : Path) (x 
           rw [← h.1]
           simp only [reserve_mono hr]
           exact fun _ hx => List.mem_cons_of_mem _ hx
-    | call slot a =>
+    | call slot a w =>
       simp only [eval] at h
       split at h
       · simp at h
@@ -821,7 +869,7 @@ theorem eval_fuel_mono (cfg : Cfg) : ∀ (fuel : Nat) (p : SProg) (π : Path) (x
         | ok l1 =>
           simp only at h ⊢
           exact ih b π x l1 s1 h
-    | call slot a =>
+    | call slot a w =>
       simp only [eval] at h
       rw [eval, eval]
       simp only
@@ -833,22 +881,22 @@ theorem eval_fuel_mono (cfg : Cfg) : ∀ (fuel : Nat) (p : SProg) (π : Path) (x
         | error err => rfl
         | ok av =>
           simp only [he] at h ⊢
-          cases hb : eval cfg fuel k.body (π ++ [k.name]) av {} s with
+          cases hb : eval cfg fuel (bindArg w k.body) (π ++ [k.name]) av {} s with
           | mk res s1 =>
             rw [hb] at h
-            have hbne : (eval cfg fuel k.body (π ++ [k.name]) av {} s).1 ≠ .error .fuel := by
+            have hbne : (eval cfg fuel (bindArg w k.body) (π ++ [k.name]) av {} s).1 ≠ .error .fuel := by
               rw [hb]
               cases res with
               | error e => simpa using h
               | ok l1 => simp
-            rw [ih k.body (π ++ [k.name]) av {} s hbne, hb]
+            rw [ih (bindArg w k.body) (π ++ [k.name]) av {} s hbne, hb]
     | skip => rw [eval, eval]
     | bind e => rw [eval, eval]
     | ret e => rw [eval, eval]
     | param n shape init => rw [eval, eval]
     | var col n shape init => rw [eval, eval]
     | get col n => rw [eval, eval]
-    | put col n e => rw [eval, eval]
+    | put col rel n e => rw [eval, eval]
     | sow col n e => rw [eval, eval]
     | perturb col n e => rw [eval, eval]
     | child cls name body => rw [eval, eval]
